@@ -436,14 +436,31 @@ def rule_siblings(check):
     f = _method(prog, "IastTelemetry", "new")
     matches = [n for n in hir.walk(f.body) if n.get("k") == "Match"]
     mapping = {}
-    if len(matches) == 1 and (hir.place(matches[0]["scrut"]) or "").endswith(".verbosity"):
+    try:
+        all_vs = [v_["name"] for v_ in prog.adt("TelemetryVerbosity")["variants"]]
+    except AnchorMissing:
+        all_vs = ["Off", "Mandatory", "Information", "Debug"]
+    sc_ok = False
+    if len(matches) == 1:
+        sc_ = hir.peel_transparent(matches[0]["scrut"])
+        l_ = hir.local_of(sc_)
+        sc_ok = (hir.place(sc_) or "").endswith(".verbosity") or (bool(l_) and f.bindings()[l_[0]]["origin"][0] == "param" and "TelemetryVerbosity" in (f.bindings()[l_[0]].get("ty") or sc_.get("ty") or ""))
+    if len(matches) == 1 and sc_ok:
         for a in matches[0]["arms"]:
             v = hir.pat_variant(a["pat"])
-            vn = v.split("::")[-1] if isinstance(v, str) else str(v)
+            vns = [x.split("::")[-1] if isinstance(x, str) else str(x) for x in (v if isinstance(v, tuple) else (v,))]
             body = hir.peel(a["body"])
+            while body.get("k") in ("BlockExpr", "Block") and "tail" in body.get("block", body) and not body.get("block", body).get("stmts"):
+                body = hir.peel(body.get("block", body)["tail"])
             ctor = (hir.peel(body["f"]).get("res", {}).get("ctor_path") or "").split("::")[-1] if body.get("k") == "Call" else "?"
-            mapping[vn] = ctor
-    check.expect(mapping == {"Off": "NoOp", "Debug": "Debug", "_": "Default"}, R, R + "/IastTelemetry/new", hir.loc(f.rec), "verbosity mapping %s" % mapping, "verbosity mapping is %s (documented: Off->NoOp, Debug->Debug, otherwise Default)" % mapping)
+            for vn in vns:
+                if vn == "_":
+                    for rest in all_vs:
+                        mapping.setdefault(rest, ctor)
+                else:
+                    mapping.setdefault(vn, ctor)
+    want_map = {"Off": "NoOp", "Debug": "Debug", "Mandatory": "Default", "Information": "Default"}
+    check.expect(mapping == want_map, R, R + "/IastTelemetry/new", hir.loc(f.rec), "verbosity mapping %s" % mapping, "verbosity mapping is %s (documented: Off->NoOp, Debug->Debug, otherwise Default)" % mapping)
 
 
 def rule_shape(check):
